@@ -213,6 +213,36 @@ pub fn oracle<E: Engine>(_ctx: &RunCtx, spec: &BindSpec, log: &mut CaseLog) -> R
             )
         })
         .map_err(|e| format!("{} while verifying a batch containing the triple altered by {:?}", e, alt))?;
+        // ... and in a batch of three, last or in the middle (alternating)
+        let r3 = guarded(|| {
+            if tested % 2 == 0 {
+                E::verify(
+                    &mut [partner.transcript(), partner.transcript(), ps.ctx.transcript()],
+                    &[partner.st.clone(), partner.st.clone(), st.clone()],
+                    &[partner_proof.clone(), partner_proof.clone(), p2.clone()],
+                    VerifyAction::VerifyOnly,
+                )
+            } else {
+                E::verify(
+                    &mut [partner.transcript(), ps.ctx.transcript(), partner.transcript()],
+                    &[partner.st.clone(), st.clone(), partner.st.clone()],
+                    &[partner_proof.clone(), p2.clone(), partner_proof.clone()],
+                    VerifyAction::VerifyOnly,
+                )
+            }
+        })
+        .map_err(|e| format!("{} while verifying a 3-batch containing the triple altered by {:?}", e, alt))?;
+        if !equivalent && r3.is_ok() {
+            return Err(format!(
+                "batch of three with the altered member (m={}) {} ACCEPTED: alteration {:?}",
+                t.cfg.m,
+                if tested % 2 == 0 { "last" } else { "in the middle" },
+                alt
+            ));
+        }
+        if equivalent && r3.is_err() {
+            return Err(format!("3-batch with promise None<->Some(0) member rejected: {:?}", alt));
+        }
         if equivalent {
             if r.is_err() {
                 return Err(format!("batch with promise None<->Some(0) member rejected: {:?}", alt));
